@@ -158,7 +158,7 @@ impl Prop for C17 {
         "C17"
     }
     fn rule(&self) -> String {
-        "bases: module sets of 1..3 modules × 1..6 assignments (thorough: up to 14) drawn from 14 assignment forms (single- and multi-line) under 3 header forms, in LF and CRLF, with and without interleaved line/block comments; every unit (header or assignment) × every token position × {delete, replace by / insert `§` (starts no ASN.1 token), replace by / insert each of ::= { } ( , INTEGER x 1}; each corrupted text given as a literal (all) and as a file path (the `§` edits). Only runs returning Err(Lexer(MatchingError)) are judged. Oracle: 0<=offset<=len on a char boundary; line = 1 + #LF before offset; offset >= first token of the corrupted unit (of the preceding unit when its first token is hit); for `§` edits offset <= position of `§`; Display line = contextualize-marked line = ReportData.line; src_file and the Display path present iff the source was a path. Non-trivial: a MatchingError was returned and judged.".into()
+        "bases: module sets of 1..3 modules × 1..6 assignments (thorough: up to 14) drawn from 14 assignment forms (single- and multi-line) under 3 header forms, in LF and CRLF, with and without interleaved line/block comments; every unit (header or assignment) × every token position × {delete, replace by / insert `§` (starts no ASN.1 token), replace by / insert each of ::= { } ( , INTEGER x 1}; each corrupted text given as a literal (all) and as a file path (the `§` edits, in every line-ending / comment layout). Only runs returning Err(Lexer(MatchingError)) are judged. Oracle: 0<=offset<=len on a char boundary; line = 1 + #LF before offset; offset >= first token of the corrupted unit (of the preceding unit when its first token is hit); for `§` edits offset <= position of `§`; Display line = contextualize-marked line = ReportData.line; src_file and the Display path present iff the source was a path. Non-trivial: a MatchingError was returned and judged.".into()
     }
     fn enumerate(&self, tier: Tier, _seed: u64) -> Vec<Case> {
         // base unit lists
@@ -200,7 +200,7 @@ impl Prop for C17 {
                         for w in withs {
                             for e in ["replace", "insert"] {
                                 out.push(Case { units: units.clone(), unit: u, tok: t, edit: e.into(), with: w.into(), crlf, comments, as_path: false });
-                                if w == "§" && !crlf && !comments {
+                                if w == "§" {
                                     out.push(Case { units: units.clone(), unit: u, tok: t, edit: e.into(), with: w.into(), crlf, comments, as_path: true });
                                 }
                             }
